@@ -507,6 +507,16 @@ def native_laws(rng, ncases):
             swapped = not (np.isclose(abs(a[i, pt, tr]), g))
             if swapped and not (a[i, pt0, tr0] > 0 and tr == tr0):
                 bad.append(("peak is neither the global extremum nor the documented swap", T, C, i))
+            # which of the two: a positive extremum v0 followed (on its channel) by a minimum xt with |v0 / xt| <= 1.5 is a weakly positive spike - its peak is handed to xt; any other keeps the extremum
+            v0 = a[i, pt0, tr0]
+            if v0 > 0 and tr == tr0:
+                tx = pt0 + int(np.argmin(a[i, pt0:, tr0]))
+                xt = a[i, tx, tr0]
+                if xt != 0 and abs(abs(v0 / xt) - 1.5) > 1e-6:
+                    weak = abs(v0 / xt) <= 1.5
+                    if pt != (tx if weak else pt0):
+                        bad.append(("weakly positive spike whose peak is not handed to the following minimum" if weak else "peak handed to the following minimum although the spike is not weakly positive", T, C, i,
+                                    {"extremum": float(v0), "at": int(pt0), "following_minimum": float(xt), "at_": int(tx), "reported_peak_at": pt}))
             if not (r.tip_time_idx < r.peak_time_idx <= r.trough_time_idx):
                 bad.append(("order tip<peak<=trough", T, C, i, int(r.tip_time_idx), pt, int(r.trough_time_idx)))
             if not (0 <= r.recovery_time_idx < T):
